@@ -728,6 +728,13 @@ func (m *Model) analyseHandler(pm *prattModel, h *handler, _ string) {
 					h.steps = append(h.steps, parseStep{op: "ident"})
 				case "parseCallExp":
 					h.steps = append(h.steps, parseStep{op: "call"})
+				default:
+					// a helper of the parser that makes exactly one step onto the next token on every path that can
+					// report success (`expectPeekName`: nextToken for a keyword, expectPeek(IDENT) otherwise)
+					if st, ok := m.oneStepHelper(pm, sc); ok {
+						h.steps = append(h.steps, st)
+						consumed = true
+					}
 				}
 			}
 		}
@@ -815,6 +822,83 @@ func (m *Model) analyseHandler(pm *prattModel, h *handler, _ string) {
 			h.shape, h.steps = shape, first
 		}
 	}
+}
+
+// oneStepHelper: a module function with a single boolean result whose every acyclic path makes at most one step
+// (nextToken or expectPeek of a constant token) and nothing else the shapes know of; a path without a step returns
+// the constant false. The step it stands for is the common one, or "next" when the paths differ.
+func (m *Model) oneStepHelper(pm *prattModel, fn *ssa.Function) (parseStep, bool) {
+	if fn.Blocks == nil || fn.Signature.Results().Len() != 1 || !isBoolT(fn.Signature.Results().At(0).Type()) {
+		return parseStep{}, false
+	}
+	var steps []parseStep
+	okAll, n := true, 0
+	var dfs func(b *ssa.BasicBlock, cur []parseStep, on map[*ssa.BasicBlock]bool)
+	dfs = func(b *ssa.BasicBlock, cur []parseStep, on map[*ssa.BasicBlock]bool) {
+		if !okAll || on[b] {
+			if on[b] {
+				okAll = false // a loop steps an unknown number of times
+			}
+			return
+		}
+		n++
+		if n > 256 {
+			okAll = false
+			return
+		}
+		for _, in := range b.Instrs {
+			c, ok := in.(*ssa.Call)
+			if !ok {
+				continue
+			}
+			sc := c.Call.StaticCallee()
+			if sc == nil || !m.InModule(sc) {
+				continue
+			}
+			switch canonFnName(sc) {
+			case "nextToken":
+				cur = append(cur[:len(cur):len(cur)], parseStep{op: "next"})
+			case "expectPeek":
+				tn := "?"
+				if k, ok := c.Call.Args[1].(*ssa.Const); ok {
+					tn = pm.tokName[k.Int64()]
+				}
+				cur = append(cur[:len(cur):len(cur)], parseStep{op: "expect", tok: tn})
+			case "parseExpression", "parseExpressionList", "parseIdentifier", "parseCallExp":
+				okAll = false
+				return
+			}
+		}
+		if r, ok := b.Instrs[len(b.Instrs)-1].(*ssa.Return); ok {
+			switch {
+			case len(cur) == 1:
+				steps = append(steps, cur[0])
+			case len(cur) == 0:
+				if k, isK := r.Results[0].(*ssa.Const); !isK || k.Value == nil || constant.BoolVal(k.Value) {
+					okAll = false
+				}
+			default:
+				okAll = false
+			}
+			return
+		}
+		on[b] = true
+		for _, nx := range b.Succs {
+			dfs(nx, cur, on)
+		}
+		delete(on, b)
+	}
+	dfs(fn.Blocks[0], nil, map[*ssa.BasicBlock]bool{})
+	if !okAll || len(steps) == 0 {
+		return parseStep{}, false
+	}
+	st := steps[0]
+	for _, x := range steps[1:] {
+		if x != st {
+			return parseStep{op: "next"}, true
+		}
+	}
+	return st, true
 }
 
 // bpOf classifies the binding power argument of a parseExpression call.
